@@ -18,9 +18,18 @@ and three warm-up rounds 4, 6, 10) is carried on top of `SqrtI.Inv`; the root `r
 the last has precision `≥ max 10 (g+3)` and the last round returns `r` exactly (`SqrtX.lock`).  The digit
 hypothesis of `iter_exact` is not needed (`iter_exact'`).
 
-`C11_sqrt_exact` as originally stated is FALSE (`C11_sqrt_exact_false`, kernel-checked): the exactness re-check
-squares the result under `BaseContext`, which fails when twice the result's exponent is below `-100000`.
-`C11_sqrt_exact_partial` is the theorem with the extra hypothesis `-100000 ≤ 2 * (specSqrt c x).q`.
+`C11_sqrt_exact`: when the specification says the root is exactly representable, `Sqrt` does not raise Inexact.
+With `C11_sqrt_correct_partial` this gives `C11_sqrt_inexact_iff`: the Inexact flag of `Sqrt` IS the
+specification's.
+
+History: the former code re-checked exactness by squaring the result under a context
+(`BaseContext.Mul(&sq, d, d)`); that multiplication failed with a system-limit error when twice the result's
+exponent was below `-100000`, and the failed check counted as "not exact".  So `Sqrt(4E-100000)` at precision 5
+(root `2E-50000`, delivered as `20000E-50004`, exact according to `specSqrt`) was reported Inexact|Rounded, and
+`C11_sqrt_exact` was false for that code (it needed the extra hypothesis `-100000 ≤ 2 * (specSqrt c x).q`).
+The code was repaired (apd 2ba0159): the square is formed on the coefficient (`sq.Coeff.Mul(&d.Coeff, &d.Coeff);
+sq.Exponent = 2 * d.Exponent`), no exponent limit is involved, and the theorem holds as stated; the former
+counterexample is now an `example` below.
 -/
 namespace Apd.Props
 open Apd Apd.Oracle Apd.SqrtD Apd.C11Q Apd.C20L Apd.RatSpec
@@ -56,16 +65,13 @@ theorem spec_exact_facts (c : Ctx) (x : Dec) (hex : (specSqrt c x).inexact = fal
     apply hov
     simp [hh.1, hh.2]
 
-/-- **C11, Sqrt, exact roots** (the strongest true variant of `C11_sqrt_exact`, see below): when the
-specification says the root is exactly representable in the context, and twice the quantum of the result is
-not below the package's exponent limit, `Sqrt` does not raise Inexact -/
-theorem C11_sqrt_exact_partial (c : Ctx) (x : Dec) (h : Dom c x)
+/-- **C11, Sqrt, exact roots**: when the specification says the root is exactly representable in the context,
+`Sqrt` does not raise Inexact -/
+theorem C11_sqrt_exact (c : Ctx) (x : Dec) (h : Dom c x)
     (hr : (workp c x : Int) + 6 ≤ 100000 + Int.tdiv (e x) 2)
-    (hex : (specSqrt c x).inexact = false)
-    (hq : -100000 ≤ 2 * (specSqrt c x).q) :
+    (hex : (specSqrt c x).inexact = false) :
     (sqrtOp c x).fl.inexact = false := by
-  obtain ⟨hnov, hsE, hqq⟩ := spec_exact_facts c x hex
-  rw [hqq] at hq
+  obtain ⟨hnov, hsE, -⟩ := spec_exact_facts c x hex
   have hic := iterClose_of_dom c x h
   obtain ⟨hh, he2, ht2, hf2⟩ := e_half x
   have hr' : -100000 ≤ (iter c x).2.exp + hh := by
@@ -97,43 +103,31 @@ theorem C11_sqrt_exact_partial (c : Ctx) (x : Dec) (h : Dom c x)
   have hfail : (iter c x).1.failed = false := hic.1
   rw [sqrtOp_eq c x (rootSpecials_none c x h.hx h.hn h.h0), hfail]
   simp only [Bool.false_eq_true, if_false]
-  have := SqrtX.tail_exact c x _ hh _ h.hc h.hx h.hn h.h0 h.hw DH hroot hsE hnov hq
-  unfold tail
-  rw [ht2]
-  exact this
+  rw [sqrt_tail_eq, ht2]
+  exact SqrtX.tail_exact' c x _ hh _ h.hc h.hx h.hn h.h0 DH hroot hsE hnov
 
-/- The statement originally given, FALSE:
-
-theorem C11_sqrt_exact (c : Ctx) (x : Dec) (h : Dom c x)
-    (hr : (workp c x : Int) + 6 ≤ 100000 + Int.tdiv (e x) 2)
-    (hex : (specSqrt c x).inexact = false) :
-    (sqrtOp c x).fl.inexact = false
-
-After the final rounding `Sqrt` re-checks exactness by squaring the result `d` with `BaseContext`
-(`mulOp baseCtx d d`) and comparing with `x`.  The product has exponent `2·d.Exponent`; when that is below
-`MinExponent = -100000` the multiplication fails (SystemUnderflow, "exponent out of range") and `Sqrt` treats the
-failed check as "not exact": it adds Inexact|Rounded.  Counterexample (kernel-checked below):
-`c = {prec := 5, emax := 100000, emin := -100000}`, `x = 4E-100000`: the root is `2E-50000`, delivered as
-`20000E-50004` (correct, and `specSqrt` says exact), but `2·(-50004) < -100000`, so Inexact is raised.
-`C11_sqrt_exact_partial` adds the hypothesis `-100000 ≤ 2 * (specSqrt c x).q` that excludes exactly this. -/
+/-- **C11, Sqrt, the Inexact flag**: `Sqrt` raises Inexact exactly when the specification does, that is, exactly
+when the root is not representable in the context (or overflows) -/
+theorem C11_sqrt_inexact_iff (c : Ctx) (x : Dec) (h : Dom c x)
+    (hr : (workp c x : Int) + 6 ≤ 100000 + Int.tdiv (e x) 2) :
+    (sqrtOp c x).fl.inexact = (specSqrt c x).inexact := by
+  cases hs : (specSqrt c x).inexact
+  · exact C11_sqrt_exact c x h hr hs
+  · exact (C11_sqrt_correct_partial c x h hr).2.2.2.1 hs
 
 set_option maxRecDepth 1000000 in
-/-- the counterexample to the statement originally given -/
-theorem C11_sqrt_exact_false :
-    ¬ ∀ (c : Ctx) (x : Dec), Dom c x → (workp c x : Int) + 6 ≤ 100000 + Int.tdiv (e x) 2 →
-        (specSqrt c x).inexact = false → (sqrtOp c x).fl.inexact = false := by
-  intro hall
-  have hd : Dom { prec := 5, emax := 100000, emin := -100000 } { coeff := 4, exp := -100000 } :=
-    ⟨by decide, rfl, rfl, rfl, by decide, by decide, by decide⟩
-  have := hall { prec := 5, emax := 100000, emin := -100000 } { coeff := 4, exp := -100000 } hd
-    (by decide) (by decide)
-  have h2 : (sqrtOp { prec := 5, emax := 100000, emin := -100000 } { coeff := 4, exp := -100000 }).fl.inexact = true := by
-    decide
-  rw [h2] at this
-  exact Bool.noConfusion this
+/-- the case the former code got wrong (it reported Inexact): `Sqrt(4E-100000)` at precision 5 is `20000E-50004`,
+exact, although twice that exponent is below the package's exponent limit -/
+example :
+    Dom { prec := 5, emax := 100000, emin := -100000 } { coeff := 4, exp := -100000 } ∧
+    (sqrtOp { prec := 5, emax := 100000, emin := -100000 } { coeff := 4, exp := -100000 }).d =
+      { coeff := 20000, exp := -50004 } ∧
+    (sqrtOp { prec := 5, emax := 100000, emin := -100000 } { coeff := 4, exp := -100000 }).fl.inexact = false :=
+  ⟨⟨by decide, rfl, rfl, rfl, by decide, by decide, by decide⟩, by decide, by decide⟩
 
 #print axioms iter_exact
-#print axioms C11_sqrt_exact_false
-#print axioms C11_sqrt_exact_partial
+#print axioms C11_sqrt_exact
+#print axioms C11_sqrt_inexact_iff
+#print axioms C11_sqrt_correct_partial
 
 end Apd.Props
